@@ -503,13 +503,13 @@ fn gen_apply(thorough: bool, rng: &mut Rng, stats: &mut Stats) -> String {
 }
 
 pub fn generate(thorough: bool, rng: &mut Rng, ops: &mut Vec<String>, stats: &mut Stats) {
-    let n_apply = if thorough { 40_000 } else { 3_000 };
+    let n_apply = if thorough { 150_000 } else { 12_000 };
     for _ in 0..n_apply {
         ops.push(gen_apply(thorough, rng, stats));
         stats.hit("op.apply");
     }
     // calendar and predicates at period boundaries
-    let n_cal = if thorough { 40_000 } else { 3_000 };
+    let n_cal = if thorough { 60_000 } else { 6_000 };
     for _ in 0..n_cal {
         let off = *rng.pick(&OFFSETS);
         let t = boundary(rng, off, stats) + delta(rng);
